@@ -92,6 +92,14 @@ def nested_pair(run, rec):
         null.set_param_rule("length", edge=e, init=v)
     alt = get_model(rec["alt"]).make_likelihood_function(fx["tree"])
     alt.set_alignment(aln)
+    if rec.get("prior") == "refused-batch":
+        # a batch of rules the function refuses (it names an edge the tree does not have): a stuttering step
+        key0 += ":after-refused-batch"
+        try:
+            alt.apply_param_rules([{"par_name": "length", "edge": "no-such-edge", "init": 0.5}])
+            run.fail(key0 + ":batch-accepted", {"pair": key0}, what="a rule for an edge the tree does not have was accepted")
+        except Exception:
+            pass
     try:
         alt.initialise_from_nested(null)
     except Exception as ex:
@@ -371,7 +379,7 @@ def check(run: Run):
         seen = set()
         n = 0
         for rec in read_emitted(emit):
-            k = (rec["null"], rec["alt"], json.dumps(rec["nullparams"]), rec.get("nullstatus"))
+            k = (rec["null"], rec["alt"], json.dumps(rec["nullparams"]), rec.get("nullstatus"), rec.get("prior"))
             if k in seen:
                 continue
             seen.add(k)
